@@ -34,6 +34,28 @@ class RecFilter:
         return ("reading", kw["payload"])
 
 
+class RecFilterRLE(RecFilter):
+    """The same log, run-length encoded (identical consecutive prediction events carry a count), so that
+    moves of 1e5 steps stay linear in time.  expand() gives the plain log back."""
+
+    def process_model(self, dt, state, covariance, control=None):
+        self.calls += 1
+        ev = ("p", float(dt), -1 if control is None else int(control), 77)
+        if state and state[-1][0] == "P" and state[-1][1] == ev:
+            return (tuple(state[:-1]) + (("P", ev, state[-1][2] + 1),), covariance)
+        return (tuple(state) + (("P", ev, 1),), covariance)
+
+    @staticmethod
+    def expand(state):
+        out = []
+        for e in state:
+            if e[0] == "P":
+                out.extend([e[1]] * e[2])
+            else:
+                out.append(e)
+        return tuple(out)
+
+
 # ------------------------------------------------------------ trace checker
 
 
@@ -58,8 +80,13 @@ def check_move(dts, a, b, max_dt):
         if abs(dt) > max_dt + 1e-9:
             out.append(("move:step-exceeds-max", f"|step| {abs(dt)!r} > max_dt {max_dt} ({a!r} -> {b!r})"))
             break
-    total = sum((Fraction(dt) for dt in dts), Fraction(0))
-    tol = Fraction(1e-9) + Fraction(8 * ulp(max(abs(a), abs(b), abs(float(delta)))) * (len(dts) + 1))
+    cnt = {}
+    for dt in dts:
+        cnt[dt] = cnt.get(dt, 0) + 1
+    total = sum((Fraction(dt) * c for dt, c in cnt.items()), Fraction(0))
+    # "within 1e-9 s"; the few ulps cover the spacing of representable times at this magnitude (the
+    # recorded steps are summed exactly, so the number of steps does not enter)
+    tol = Fraction(1e-9) + Fraction(8 * ulp(max(abs(a), abs(b), abs(float(delta)))))
     if abs(total - delta) > tol:
         out.append(("move:sum-mismatch", f"steps sum to {float(total)!r}, time difference {float(delta)!r} ({a!r} -> {b!r}, max {max_dt}, {len(dts)} steps)"))
     return out
@@ -172,7 +199,7 @@ def rec_impl_source(has_cal: bool, has_ctl: bool, max_dts=MAX_DTS):
     A = L.append
     A("#include <formak/runtime/ManagedFilter.h>")
     A("#include <cstdio>\n#include <cstdlib>\n#include <memory>\n#include <string>\n#include <type_traits>\n#include <vector>")
-    A("struct Ev { char kind; double dt; int a; int b; int cal; };")
+    A("struct Ev { char kind; double dt; int a; int b; int cal; long rep; };")
     A("struct SV { std::vector<Ev> log; };")
     A("struct Cal { int tag = 0; };")
     A("struct Ctl { int tag = 0; };")
@@ -184,14 +211,14 @@ def rec_impl_source(has_cal: bool, has_ctl: bool, max_dts=MAX_DTS):
         A(f"struct Rec{i} {{")
         A(f"  struct Tag {{ using StateAndVarianceT = SV; using CalibrationT = {cal_t}; using ControlT = {ctl_t};"
           f" using StampedReadingBaseT = Base{i}; static constexpr double max_dt_sec = {md!r}; }};")
-        A(f"  SV process_model(double dt, const SV& s{cal_p}{ctl_p}) const {{ SV r = s; r.log.push_back(Ev{{'p', dt, {ctl_v}, 0, {cal_v}}}); return r; }}")
-        A(f"  template <typename ReadingT> SV sensor_model(const SV& s{cal_p}, const ReadingT& rdg) const {{ SV r = s; r.log.push_back(Ev{{'s', 0.0, rdg.sensor, rdg.payload, {cal_v}}}); return r; }}")
+        A(f"  SV process_model(double dt, const SV& s{cal_p}{ctl_p}) const {{ SV r = s; if (!r.log.empty() && r.log.back().kind == 'p' && r.log.back().dt == dt && r.log.back().a == {ctl_v} && r.log.back().cal == {cal_v}) r.log.back().rep++; else r.log.push_back(Ev{{'p', dt, {ctl_v}, 0, {cal_v}, 1}}); return r; }}")
+        A(f"  template <typename ReadingT> SV sensor_model(const SV& s{cal_p}, const ReadingT& rdg) const {{ SV r = s; r.log.push_back(Ev{{'s', 0.0, rdg.sensor, rdg.payload, {cal_v}, 1}}); return r; }}")
         A("};")
         A(f"struct Reading{i} : Base{i} {{ int sensor = 0; int payload = 0;")
         A(f"  SV sensor_model(const Rec{i}& impl, const SV& s{cal_p}) const override {{ return impl.sensor_model(s{cal_a}, *this); }} }};")
         A(f"static_assert(formak::runtime::ManagedFilter<Rec{i}>::compatible);")
     A("static void pr(const SV& s) { printf(\"R %zu\", s.log.size()); for (const Ev& e : s.log) {"
-      " if (e.kind == 'p') printf(\" p %a %d %d\", e.dt, e.a, e.cal); else printf(\" s %d %d %d\", e.a, e.b, e.cal); } printf(\"\\n\"); }")
+      " if (e.kind == 'p' && e.rep > 1) printf(\" q %ld %a %d %d\", e.rep, e.dt, e.a, e.cal); else if (e.kind == 'p') printf(\" p %a %d %d\", e.dt, e.a, e.cal); else printf(\" s %d %d %d\", e.a, e.b, e.cal); } printf(\"\\n\"); }")
     A("template <typename Rec, typename Reading> int session(double t0) {")
     A("  using MF = formak::runtime::ManagedFilter<Rec>;")
     if has_cal:
@@ -241,7 +268,11 @@ def parse_r_line(toks):
     ev = []
     i = 2
     for _ in range(n):
-        if toks[i] == "p":
+        if toks[i] == "q":
+            # run-length encoded: identical consecutive prediction events
+            ev.extend([("p", float.fromhex(toks[i + 2]), int(toks[i + 3]), int(toks[i + 4]))] * int(toks[i + 1]))
+            i += 5
+        elif toks[i] == "p":
             ev.append(("p", float.fromhex(toks[i + 1]), int(toks[i + 2]), int(toks[i + 3])))
             i += 4
         else:
